@@ -19,6 +19,12 @@ type (
 func (r RestrictionList) GetRestrictionMap() RestrictionList { return r }
 
 func (r RestrictionList) AddRestriction(category, item string) {
+	// an item named twice (e.g. "AAPL,AAPL/1Min/OHLC") must not be planned twice
+	for _, existing := range r[category] {
+		if existing == item {
+			return
+		}
+	}
 	r[category] = append(r[category], item)
 }
 
